@@ -1,0 +1,16 @@
+//go:build verif
+
+package server
+
+import "net"
+
+// VerifHook, when set, is called at the linearization points of the server's connection lifecycle
+// (only in builds with the `verif` tag). It may block: the verification harness uses it both as a
+// trace recorder and as a scheduler gate.
+var VerifHook func(point string, conn net.Conn, n int64)
+
+func verifPoint(point string, conn net.Conn, n int64) {
+	if h := VerifHook; h != nil {
+		h(point, conn, n)
+	}
+}
